@@ -1,15 +1,15 @@
 SPECIFICATION Spec
 CONSTANTS
-  MODE = "reduce"
+  MODE = "regions"
   K = 2
-  NF = 4
-  NG = 0
-  PF = "p2s"
-  TF = "t22c"
-  PG = "p2s"
-  TG = "t22c"
+  NF = 3
+  NG = 2
+  PF = "p2b"
+  TF = "t22s"
+  PG = "p2a"
+  TG = "t22s"
   LAYOUTS = {"dfs", "hole", "rev", "low"}
   EMIT = TRUE
-INVARIANTS LawReduce ResultWellFormed
+INVARIANTS LawRegions
 ACTION_CONSTRAINT Emit
 CHECK_DEADLOCK FALSE
